@@ -1695,3 +1695,185 @@ def gen_jitmuldiv(src_dir):
            "Definition gen_jit_muldivmod (pc opc src dst imm : Z) : list xi :=\n  %s.\n\n" % term,
            "Definition gen_jit_muldiv_ops : list Z := [%s].\n" % '; '.join(str(o) for o in ops)]
     return ''.join(out)
+
+
+# ------------------------------------------------------------------ src/jit.rs: byte swaps and the wide load
+
+def gen_jitmisc(src_dir):
+    from rsemit import Emitter
+    env, _ = U.read_consts(src_dir)
+    toks = U.load(src_dir, 'jit.rs')
+    consts = {}
+    for name, ty, e_, line in R.consts(toks):
+        try:
+            consts[name] = U.eval_const(e_, {})
+        except Unsupported:
+            pass
+    _, fbody = R.parse_fn(toks, 'jit_compile')
+    arms = []
+
+    def walk(e):
+        if isinstance(e, tuple) and e and e[0] == 'match' and show(e[1]) == 'insn.opc' and len(e[2]) > 50:
+            arms.extend(e[2])
+            return
+        if isinstance(e, (tuple, list)):
+            for x in e:
+                walk(x)
+    walk(fbody)
+    out = [U.HDR % 'src/jit.rs (jit_compile: byte swaps per width, the wide load)',
+           "From RbpfV Require Import Ebpf X86Sem.\nFrom RbpfV.gen Require Import Opcodes.\n\n"]
+
+    def seq_for(width, body):
+        """the encoder calls of a block / expression with insn.imm = width"""
+        cenv = {}
+
+        def val(e):
+            while e[0] == 'paren':
+                e = e[1]
+            if e[0] == 'num':
+                return e[1]
+            if e[0] == 'path' and e[1] in cenv:
+                return cenv[e[1]]
+            if e[0] == 'path' and e[1] in consts:
+                return consts[e[1]]
+            if e[0] == 'field' and show(e) == 'insn.imm':
+                return width
+            if e[0] == 'match':
+                v = val(e[1])
+                for pat, guard, b, ln, attrs in e[2]:
+                    if (pat[0] == 'pnum' and pat[1] == v) or pat[0] == 'pwild':
+                        return val(b)
+                raise Unsupported("byte-swap arm: match without default")
+            raise Unsupported("byte-swap arm: value %s" % show(e)[:40])
+
+        def arg(e):
+            while e[0] == 'paren':
+                e = e[1]
+            if e[0] == 'path' and e[1] == 'dst':
+                return 'dst'
+            return str(val(e))
+        sts = [st for st in body[1]] if body[0] == 'block' else [('tail', body, 0, [])]
+        res = []
+        i = 0
+        while i < len(sts):
+            st = sts[i]
+            if st[0] == 'let' and st[1][0] == 'ppath':
+                cenv[st[1][1]] = val(st[3])
+                i += 1
+                continue
+            e = st[1]
+            if e[0] == 'mcall' and show(e[1]) == 'self' and show(e[3][0]) == 'mem':
+                # bswap: emit_basic_rex(mem, w, 0, dst); emit1(mem, 0x0f); emit1(mem, 0xc8 | (dst & 0b111))
+                if e[2] == 'emit_basic_rex' and i + 2 < len(sts):
+                    t1 = show(sts[i + 1][1]).replace(' ', '')
+                    t2 = show(sts[i + 2][1]).replace(' ', '')
+                    if t1 == 'self.emit1(mem,15)' and t2 in ('self.emit1(mem,(200|(dst&7)))', 'self.emit1(mem,200|(dst&7))') and \
+                            [arg(a) for a in e[3][2:]] == ['0', 'dst']:
+                        res.append('XBswap %s dst' % arg(e[3][1]))
+                        i += 3
+                        continue
+                if e[2] == 'emit1' and arg(e[3][1]) == '102':
+                    res.append('XOpSize')
+                    i += 1
+                    continue
+                if e[2] in XI_OF:
+                    ctor, n = XI_OF[e[2]]
+                    if len(e[3]) - 1 != n:
+                        raise Unsupported("%s arity" % e[2])
+                    res.append('%s %s' % (ctor, ' '.join(arg(a) for a in e[3][1:])))
+                    i += 1
+                    continue
+            raise Unsupported("byte-swap arm: statement %s" % show(e)[:60])
+        return res
+    done = set()
+    for pat, guard, body, ln, attrs in arms:
+        if pat[0] != 'ppath':
+            continue
+        n = pat[1].split('::')[-1]
+        if n in ('LE', 'BE'):
+            b = body
+            while b[0] == 'block' and len(b[1]) == 1:
+                b = b[1][0][1]
+            if b[0] != 'match' or show(b[1]) != 'insn.imm':
+                raise Unsupported("%s arm is not a match on insn.imm" % n)
+            for w in (16, 32, 64):
+                hit = [a for a in b[2] if a[0][0] == 'pnum' and a[0][1] == w or (a[0][0] == 'por' and any(p[0] == 'pnum' and p[1] == w for p in a[0][1]))]
+                if len(hit) != 1:
+                    raise Unsupported("%s arm: width %d" % (n, w))
+                calls = seq_for(w, hit[0][2])
+                out.append("Definition gen_jit_%s%d (dst : Z) : list xi :=\n  [%s].\n\n" % (n.lower(), w, '; '.join(calls)))
+            done.add(n)
+        if n == 'LD_DW_IMM':
+            sts = list(body[1])
+            txt = [show(st[3] if st[0] == 'let' else st[1]).replace(' ', '') for st in sts]
+            strip = lambda z: z[1:-1] if z.startswith('(') and z.endswith(')') else z  # noqa: E731
+            first_ok = sts[0][0] == 'stmt' and sts[0][1][0] == 'assign' and sts[0][1][1] == '+=' and show(sts[0][1][2]) == 'insn_ptr' and show(sts[0][1][3]) == '1'
+            if len(sts) != 4 or not first_ok or sts[1][0] != 'let' or \
+                    strip(txt[1]) != 'ebpf::get_insn(prog,insn_ptr).immasu64' or sts[2][0] != 'let' or \
+                    txt[3] != 'self.emit_load_imm(mem,dst,(%sasi64))' % sts[2][1][1]:
+                raise Unsupported("LD_DW_IMM arm shape: %s" % txt)
+            em = Emitter(env, {'insn.imm': ('lo', 'I32'), sts[1][1][1]: ('(cast U64 hi)', 'U64')})
+            t, ty = em.expr(sts[2][3])
+            if ty != 'U64':
+                raise Unsupported("LD_DW_IMM: immediate type %s" % ty)
+            out.append("(* the second slot's immediate is hi; the value handed to emit_load_imm(mem, dst, _) *)\n"
+                       "Definition gen_jit_lddw_value (lo hi : Z) : res Z :=\n  %s.\n\n" % Emitter.wrap_binds(em.take_binds(), 'Ok (cast I64 %s)' % t))
+            out.append("Definition gen_jit_lddw (dst v : Z) : list xi :=\n  [XLoadImm dst v].\n\n")
+            done.add(n)
+        if n == 'CALL':
+            b = body
+            while b[0] == 'block' and len(b[1]) == 1:
+                b = b[1][0][1]
+            if b[0] != 'match' or show(b[1]) != 'insn.src':
+                raise Unsupported("CALL arm is not a match on insn.src")
+            h = [a for a in b[2] if a[0] == ('pnum', 0)]
+            if len(h) != 1:
+                raise Unsupported("CALL arm: no arm for src = 0")
+            hb = h[0][2]
+            while hb[0] == 'block' and len(hb[1]) == 1:
+                hb = hb[1][0][1]
+            if hb[0] != 'if' or hb[1][0] != 'chain' or len(hb[1][1]) != 1 or hb[1][1][0][0] != 'clet':
+                raise Unsupported("helper call: not `if let Some(h) = helpers.get(..)`")
+            clet = hb[1][1][0]
+            if clet[1][0] != 'pctor' or clet[1][1] != 'Some' or clet[1][2][0][0] != 'ppath':
+                raise Unsupported("helper call: pattern")
+            hname = clet[1][2][0][1]
+            key = show(clet[2]).replace(' ', '')
+            if key not in ('helpers.get(&(insn.immasu32))', 'helpers.get(&((insn.immasu32)))'):
+                raise Unsupported("helper call: key %s" % key)
+            els = hb[3]
+            if els is None or els[0] != 'block' or len(els[1]) != 1 or els[1][0][1][0] != 'try' or not show(els[1][0][1][1]).startswith('Err('):
+                raise Unsupported("helper call: an unknown id is not turned into Err(..)?")
+            pre, post, seen = [], [], False
+            for st in hb[2][1]:
+                e = st[1]
+                if not (st[0] in ('stmt', 'tail') and e[0] == 'mcall' and show(e[1]) == 'self' and show(e[3][0]) == 'mem'):
+                    raise Unsupported("helper call: statement %s" % show(e)[:50])
+                if e[2] == 'emit_call':
+                    if seen or show(e[3][1]).replace(' ', '') not in ('(*helperasusize)'.replace('helper', hname), '*helperasusize'.replace('helper', hname), '((*helper)asusize)'.replace('helper', hname)):
+                        raise Unsupported("helper call: emit_call argument %s" % show(e[3][1]))
+                    seen = True
+                    continue
+                if e[2] not in XI_SEQ:
+                    raise Unsupported("helper call: encoder %s" % e[2])
+                ctor, k = XI_SEQ[e[2]]
+                args = []
+                for a in e[3][1:]:
+                    if a[0] == 'path' and a[1] in consts:
+                        args.append(str(consts[a[1]]))
+                    elif a[0] == 'num':
+                        args.append(str(a[1]))
+                    else:
+                        raise Unsupported("helper call: operand %s" % show(a))
+                (post if seen else pre).append('%s %s' % (ctor, ' '.join(args)))
+            if not seen:
+                raise Unsupported("helper call: no emit_call")
+            out.append("(* helper call (src = 0): the helper registered under (imm as u32); an unregistered id makes compilation return Err.\n"
+                       "   The instructions emitted before and after `emit_call(mem, helper address)` *)\n"
+                       "Definition gen_jit_call_key (insn : insn) : Z := cast U32 (imm insn).\n"
+                       "Definition gen_jit_call_unknown_is_error : bool := true.\n"
+                       "Definition gen_jit_call_pre : list xi :=\n  [%s].\nDefinition gen_jit_call_post : list xi :=\n  [%s].\n\n" % ('; '.join(pre), '; '.join(post)))
+            done.add(n)
+    if done != {'LE', 'BE', 'LD_DW_IMM', 'CALL'}:
+        raise Unsupported("arms found: %s" % sorted(done))
+    return ''.join(out)
